@@ -75,6 +75,7 @@ class C17(Harness):
         inp["labels"] = choice("labels", 0, 2)
         if k == "column-ensemble":
             inp["dup_names"] = bool(ctx.fresh_bool("dup_names"))
+            inp["shared_estimator"] = inp["labels"] == 1  # (tied to the label-type choice to keep the path count)
         p = [[fresh_reals(ctx, "p%d_%d_" % (e, i), nk) for i in range(ni)] for e in range(ne)]
         if k != "tsf-regressor":
             for e in range(ne):
@@ -172,10 +173,11 @@ class C17(Harness):
                         self.e = e
 
                     def fit(self, X, y):
+                        self.fit_first_ = [S(v) for v in list(X.iloc[0, 0])]  # what this (cloned) member was fitted on
                         return self
 
                     def predict_proba(self, X):
-                        seen.append([self.e, [[S(v) for v in list(X.iloc[i, 0])] for i in range(X.shape[0])], int(X.shape[1])])
+                        seen.append([self.e, [[S(v) for v in list(X.iloc[i, 0])] for i in range(X.shape[0])], int(X.shape[1]), list(self.fit_first_)])
                         return mk_tree(self.e, record=False).predict_proba(None)
 
                 CE = W.load("sktime.classification.compose._column_ensemble").ColumnEnsembleClassifier
@@ -185,7 +187,12 @@ class C17(Harness):
                 if inp.get("dup_names"):  # two univariate panels put side by side carry the same default column label
                     Xn.columns = ["dim_0", "dim_0"]
                     Xfit.columns = ["dim_0", "dim_0"]
-                ce = CE([("m%d" % e, Clf(e=e), [e % 2]) for e in range(ne)] + [("unused", "drop", [0])])  # a member specified as 'drop' does not vote
+                if inp.get("shared_estimator"):  # one estimator object listed for every member: each member still is its own clone
+                    one = Clf(e=0)
+                    members = [("m%d" % e, one, [e % 2]) for e in range(ne)]
+                else:
+                    members = [("m%d" % e, Clf(e=e), [e % 2]) for e in range(ne)]
+                ce = CE(members + [("unused", "drop", [0])])  # a member specified as 'drop' does not vote
                 ce.fit(Xfit, ys)
                 del seen[:]
                 proba = ce.predict_proba(Xn)
@@ -297,14 +304,18 @@ class C17(Harness):
             wellformed(proba, out["classes"])
             for i in range(ni):
                 for c in range(nk):
-                    P.eq("column-ensemble-average", proba[i][c], sum(p[e][i][c] for e in range(ne)) / ne)
+                    members_p = [p[0 if inp.get("shared_estimator") else e][i][c] for e in range(ne)]
+                    P.eq("column-ensemble-average", proba[i][c], sum(members_p) / ne)
             pred_ok(out["pred"], proba, out["classes"])
             P.check("column-ensemble-average", len(out["members_saw"]) == ne)
-            for e, rows, ncols in out["members_saw"]:
+            for k_, (e, rows, ncols, fitted_on) in enumerate(out["members_saw"]):
+                e = k_ if inp.get("shared_estimator") else e  # members are asked in the order they are listed
                 P.check("column-ensemble-average", ncols == 1, {"member": e, "columns_received": ncols})
                 for i in range(ni):
                     for a, b in zip(rows[i], x[i][e % 2]):
                         P.eq("column-ensemble-average", a, b, {"member": e})
+                for a, b in zip(fitted_on, x[0][e % 2]):
+                    P.eq("column-ensemble-average", a, b, {"member": e, "what": "fitted on its own column"})
             return
         if k == "base-predict-score":
             proba = [p[0][i] for i in range(ni)]
